@@ -339,9 +339,11 @@ fn render(src: &str, d: &Delims) -> R {
         if hash_str(src) % 16 == 0 {
             let dir = std::path::Path::new(VERIF_DIR).join("work").join("c08files");
             let _ = std::fs::create_dir_all(&dir);
-            let path = dir.join(format!("{:?}.tpl", std::thread::current().id()).replace(|c: char| !c.is_ascii_alphanumeric() && c != '.', "_"));
+            // one file per process and thread (the libFuzzer jobs are separate processes running the same code)
+            let path = dir.join(format!("{}-{:?}.tpl", std::process::id(), std::thread::current().id()).replace(|c: char| !c.is_ascii_alphanumeric() && c != '.' && c != '-', "_"));
             if std::fs::write(&path, src).is_ok() {
                 let from_file = t.add_template_file(&path, Some("f.txt")).and_then(|_| t.render("f.txt", &c));
+                let _ = std::fs::remove_file(&path);
                 match (&registered, &from_file) {
                     (Ok(a), Ok(b)) if a != b => return R::Err(format!("registered from a string the source renders {a:?}, loaded from a file with the same bytes {b:?}")),
                     (Ok(a), Err(e)) => return R::Err(format!("registered from a string the source renders {a:?}, loaded from a file it fails: {e}")),
